@@ -345,8 +345,13 @@ def extract():
     si = ",\n  ".join("((%d, %d), %d, %s)" % (c[0], c[1], ex, _nats(t)) for c, ex, t in singles)
     ge = ",\n  ".join("(%s, %s, %s)" % (_nats(t), _nats(y), "none" if r is None else "some %d" % r) for t, y, r in gens)
     fa = ",\n  ".join("(%s, %s)" % (json.dumps(n), _b(ok)) for n, ok in facts)
-    return f"""-- GENERATED by harness/props/c11_extract.py by probing the real Pyro5.server / client / core / serializers of the checked tree — do not edit
+    from props import c11_tr
+    src = c11_tr.translate()      # raises Untranslatable (-> "extractor" is reported broken) when the source left the fragment
+    return f"""-- GENERATED by harness/props/c11_extract.py by probing the real Pyro5.server / client / core / serializers of the checked tree
+-- and (section "transcribed") by harness/props/c11_tr.py from the AST of the checked tree — do not edit
+import PyroModel.Batch
 namespace Pyro.Gen.C11
+open Pyro.Batch
 /-- observed on the real Daemon.handleRequest (FLAGS_BATCH): (oneway, calls as (name id, argument), calls executed when
     handleRequest returned, reply: [] nothing | 0,e exception response | 1,items result list with FLAGS_BATCH (2v value, 2e+1 wrapper)) -/
 def serverProbes : List (Bool × List (Nat × Nat) × Nat × List Nat) := [
@@ -364,5 +369,9 @@ def clientFacts : List (String × Bool) := [
 def dumpsCallNoKwargs : List (String × Bool) := [{", ".join('(%s, %s)' % (json.dumps(n), _b(ok)) for n, ok in probe)}]
 /-- per serializer (sorted by name): loads(dumps([1, _ExceptionWrapper(ValueError("x"))])) gives the list with the wrapper back -/
 def wrapperInReplyList : List (String × Bool) := [{", ".join('(%s, %s)' % (json.dumps(n), _b(ok)) for n, ok in wprobe)}]
+
+/-! ### transcribed from the source (harness/props/c11_tr.py) -/
+set_option linter.unusedVariables false
+{src}
 end Pyro.Gen.C11
 """
